@@ -139,7 +139,7 @@ func engPubValid(seed int64, tier string, _ []string, out *sx.Out) {
 	thorough := tier == "thorough"
 
 	valid := []string{"a", "a/b", "b//c", "/", "$sys/x", "$share/g", "$SY", "$", "a/$SYS", "aa/a"}
-	invalid := []string{"$SYS", "$SYS/broker/version", "$SYSx", "$SYS/", "a/#", "#", "+", "a/+/b", "a/b#", "a+", "+/a", "$SYS/#", "$sys/+"}
+	invalid := []string{"$SYS", "$SYS/broker/version", "$SYSx", "$SYS/", "$SYS/a", "$SYS$", "a/#", "#", "+", "a/+/b", "a/b#", "a+", "+/a", "$SYS/#", "$sys/+"}
 	// every string of length 1..3 over the C30 alphabet
 	alpha := []string{"/", "+", "#", "$", "a"}
 	small := []string{}
@@ -152,7 +152,6 @@ func engPubValid(seed int64, tier string, _ []string, out *sx.Out) {
 			}
 		}
 	}
-	tokens := []string{"$SYS", "$sys", "$share", "g", "/", "+", "#", "a"}
 
 	// (i) scripted: every invalid name x route x qos x retain, after alias 1 was bound to a valid name;
 	// then alias-only on the alias, then the name on a fresh alias, then alias-only on that one
@@ -182,29 +181,34 @@ func engPubValid(seed int64, tier string, _ []string, out *sx.Out) {
 	// MQTT 3.1 / 3.1.1: plain publishes only (no properties)
 	for _, ver := range []byte{3, 4} {
 		r := pvNew(out, ver)
-		for i, name := range append(append([]string{}, invalid...), valid...) {
+		for i, name := range append(append([]string{"$SYS", "$SYS/broker/version", "$SYSx", "$SYS/", "$SYS/a", "$SYS$"}, valid...), "a/#") {
 			r.step(pvStep{name, 0, byte(i % 3), i%2 == 0})
 		}
 		r.finish()
 	}
 
 	// (ii) random histories on one MQTT 5 connection, biased to re-binding bound aliases
-	histories, steps := 150, 16
+	histories, steps := 500, 16
 	if thorough {
 		histories, steps = 3000, 24
 	}
+	// names with a wildcard end the connection (packets.PublishValidate), so they are rare here; the
+	// refusals that leave the connection open are the $SYS names
+	sysNames := []string{"$SYS", "$SYS/broker/version", "$SYSx", "$SYS/", "$SYS/a", "$SYS$", "$SYSa/a", "$SYS//"}
 	pick := func() string {
-		switch rng.Intn(6) {
+		switch rng.Intn(12) {
 		case 0:
 			return small[rng.Intn(len(small))]
 		case 1:
+			return invalid[rng.Intn(len(invalid))]
+		case 2, 3:
 			s := ""
 			for k := 1 + rng.Intn(4); k > 0; k-- {
-				s += tokens[rng.Intn(len(tokens))]
+				s += []string{"$SYS", "$sys", "$share", "g", "/", "a", "$"}[rng.Intn(7)]
 			}
 			return s
-		case 2, 3:
-			return invalid[rng.Intn(len(invalid))]
+		case 4, 5, 6, 7:
+			return sysNames[rng.Intn(len(sysNames))]
 		default:
 			return valid[rng.Intn(len(valid))]
 		}
